@@ -118,6 +118,7 @@ static std::string classify(const std::string& w) {
   if (w.find("Number of penalty orders") == 0) return "npenalty";
   if (w.find("Penalty order") == 0) return "penaltyOrder " + dim("in dimension ");
   if (w.find("Requested monotonic dimension") == 0) return "monodim";
+  if (w.find("already contains data") != std::string::npos) return "occupied";
   std::string s = "other:" + w; for (auto& ch : s) if (ch == ' ' || ch == '\n') ch = '_';
   return s;
 }
@@ -177,18 +178,19 @@ static void run_case(const Case& c, int fd) {
       out << (same ? " table=unchanged" : " table=CHANGED");
       if (!same) { t.ndim = 0; }   // do not let the destructor walk a half-built table (that is C20's subject)
     }
-    if (threw && v.compare(0, 6, "reject") == 0) {
-      // the same rejected call on a populated table must leave every field (pointers and contents) as it was
+    {
+      // The same call on a populated table: since the C20 repair "fit refuses a table which already contains data" it
+      // must be refused (std::runtime_error) for EVERY argument tuple, and every field (pointers and contents) must stay
+      // as it was.  popv = the verdict, pop = whether the table is unchanged.
       Table p;
       build_table(p, {1}, {{0, 1, 2, 3}}, {1.5f, -2.5f});
       std::string b2 = digest(p), b2s = digest(p, false); bool th2;
       std::string v2 = call_cpp(c, p, th2);
-      // (a populated table is refused outright since the C20 repair "fit refuses a table which already contains data";
-      //  either refusal is fine, what matters is that the call throws and nothing changes)
+      for (auto& ch : v2) if (ch == ' ') ch = '_';
       bool same2 = th2 && digest(p, false) == b2s && digest(p) == b2;
-      out << " pop=" << (same2 ? "unchanged" : "CHANGED:" + v2);
+      out << " pop=" << (same2 ? "unchanged" : "CHANGED") << " popv=" << v2;
       if (!same2) p.ndim = 0;
-    } else out << " pop=na";
+    }
   }
   if (c_expressible(c)) {
     // C wrapper on a fresh table, and the C++ call through the same kind of views on another fresh table
@@ -450,6 +452,24 @@ static int do_gen(long nrandom, const char* cases, const char* stats) {
     bool valid = mutate(b.c, a, v, r);
     emit(b.c, b.wellposed && valid && !(a == 4 && (v == 8 || v == 10)), std::string(ARGN[a]) + std::to_string(v));
     dist[std::string("single:") + ARGN[a]]++;
+  }
+  // 2b. consistent arguments of absurd size (the number of coefficients reaches 2^64 and wraps): they pass the sanity
+  //     block, glamfit_complex gives up ("GLAM fit failed"), and the storage guard must leave the table empty.  These are
+  //     the cases that exercise the failure path behind the sanity block (model: Ext.glamFailed, NoWrapB = false).
+  {
+    static const int HUGE[4][3] = {{16, 17, 0}, {8, 257, 0}, {16, 18, 1}, {11, 65, 0}};   // ndim, nknots, order
+    for (int h = 0; h < 4; h++) for (int rep = 0; rep < 2; rep++) {
+      Case c; size_t nd = HUGE[h][0]; int nk = HUGE[h][1]; uint32_t o = HUGE[h][2];
+      c.ndim = nd; c.rows = 1; c.x = {1.0 + r.unit()}; c.w = {1.0};
+      std::vector<double> k(nk); for (int j = 0; j < nk; j++) k[j] = j;
+      for (size_t d = 0; d < nd; d++) {
+        c.ranges.push_back(1); c.idx.push_back({0}); c.coords.push_back({nk / 2 + 0.25 * (1 + r.below(3))});
+        c.orders.push_back(o); c.knots.push_back(k);
+      }
+      size_t ns = rep ? nd : 1;
+      c.smooth.assign(ns, 0.0); c.pen.assign(ns, 0);
+      emit(c, false, "huge" + std::to_string(h)); dist["huge"]++;
+    }
   }
   // 3. random points of the cross product: every argument independently valid / one of its invalid variants
   for (long k = 0; k < nrandom; k++) {
